@@ -11,15 +11,15 @@
      addfac(c, ts, n, desc, flaw, async, fid, r, evs)
      get(c, t, n, api, opt, r, vid, evs)           r: val | None | ResourceNotFound | AsyncResourceError | RuntimeError | other
      getall(c, t, found)   outside(reason)
-     cadd(n, isdefault, starting, defname, desc, fac, r, delegated, in = [n, desc, r, fac])   a ComponentContext's add call and the
+     cadd(n, isdefault, starting, defname, desc, fac, cb, r, delegated, in = [n, desc, r, fac, cb])   a ComponentContext's add call and the
                                                    context-level call it delegated to (recorded within it)
    all but exit.begin with post = << [c, st, res = <<t, n, vid, gen>>.., fac = <<t, n, fid>>..] .. >> for every context.
    "other" = the call ended in a way the specification does not describe (a factory that raised, a cancellation): nothing
-   is concluded from the result, the state must be unchanged.  The verdict names the property of the first failing clause. *)
+   is concluded from the result, the state must be unchanged.  The verdict names the property (or properties) of the first failing clause. *)
 EXTENDS Ctx, TLCExt, Json, IOUtils, FiniteSetsExt
 Traces == JsonDeserialize(IOEnv.TRACE_FILE)
 SuiteTypes == {"T0", "T1", "T2", "T3", "T4", "T5", "T6", "T7", "T8", "T9", "T10", "T11", "T12"}
-SuiteNames == {"N1", "N2", "N3", "N4", "N5", "N6", "N7", "N8"}
+SuiteNames == {"N1", "N2", "N3", "N4", "N5", "N6", "N7", "N8", "N9", "N10", "N11", "N12", "N13", "N14", "N15", "N16"}
 Huge == 1000000
 VARIABLES tid, l, ok, why, at, live, vbind, fbind, hits
 tvars == <<tid, l, ok, why, at, live, vbind, fbind, hits>>
@@ -139,7 +139,8 @@ StepCAdd ==
            ELSE IF E.in.fac # E.fac THEN "C14:component-context-delegated-to-the-wrong-operation"
            ELSE IF E.in.n # (IF E.isdefault /\ E.starting THEN E.defname ELSE E.n) THEN "C14:resource-name-given-to-the-context-is-not-what-the-alias-rule-says"
            ELSE IF E.in.desc # E.desc THEN "C18:description-lost-between-the-component-and-the-context"
-           ELSE IF E.in.r # E.r THEN "C03:outcome-of-the-delegated-registration-not-passed-on"
+           ELSE IF E.in.cb # E.cb THEN "C01:teardown-callback-lost-between-the-component-and-the-context"
+           ELSE IF E.in.r # E.r THEN "C03,C18:outcome-of-the-delegated-registration-not-passed-on"
            ELSE "", "cadd")
 TInit == /\ tid \in 1..Len(Traces) /\ l = 1 /\ ok = TRUE /\ why = "" /\ at = 0 /\ live = TRUE /\ vbind = {} /\ fbind = {} /\ hits = {}
          /\ cstate = [c \in Ctxs |-> "unborn"] /\ parent = [c \in Ctxs |-> 0]
